@@ -3,3 +3,4 @@ pub mod air_monitor;
 pub mod opnames;
 pub mod tracecols;
 pub mod field;
+pub mod mast_walker;
